@@ -1,7 +1,9 @@
 package sim
 
 import (
+	"bytes"
 	"encoding/base64"
+	"encoding/binary"
 	"encoding/json"
 	"fmt"
 	"math"
@@ -9,6 +11,9 @@ import (
 	"path/filepath"
 
 	"github.com/siglens/siglens/pkg/segment/structs"
+	sutils "github.com/siglens/siglens/pkg/segment/utils"
+	"github.com/siglens/siglens/pkg/segment/writer"
+	"github.com/siglens/siglens/pkg/segment/writer/metrics/compress"
 	"github.com/siglens/siglens/pkg/segment/writer/metrics/wal"
 )
 
@@ -183,4 +188,79 @@ func walIter(raw json.RawMessage) (interface{}, error) {
 func init() {
 	Register("walbuild", walBuild)
 	Register("waliter", walIter)
+}
+
+// mputl: light-mode datapoint ingest (the function the OpenTSDB handler calls per datapoint).
+func mputLight(raw json.RawMessage) (interface{}, error) {
+	var a struct {
+		JSON string `json:"json"`
+		Org  int64  `json:"org"`
+	}
+	if err := json.Unmarshal(raw, &a); err != nil {
+		return nil, err
+	}
+	err := writer.AddTimeSeriesEntryToInMemBuf([]byte(a.JSON), sutils.SIGNAL_METRICS_OTSDB, a.Org)
+	if err != nil {
+		return map[string]interface{}{"accepted": false, "error": err.Error()}, nil
+	}
+	return map[string]interface{}{"accepted": true}, nil
+}
+
+// mdumpfiles decodes every block file (*.tsg) under the data directory with the real series decoder.
+func mdumpFiles(raw json.RawMessage) (interface{}, error) {
+	type ser struct {
+		Tsid   uint64      `json:"tsid"`
+		Points [][2]uint64 `json:"points"` // ts, bits
+		Err    string      `json:"err,omitempty"`
+	}
+	out := map[string][]ser{}
+	_ = filepath.Walk(DataDir+"data/", func(p string, info os.FileInfo, err error) error {
+		if err != nil || info.IsDir() || filepath.Ext(p) != ".tsg" {
+			return nil
+		}
+		b, rerr := os.ReadFile(p)
+		rel := p[len(DataDir):]
+		if rerr != nil || len(b) < 1 {
+			out[rel] = []ser{{Err: "unreadable"}}
+			return nil
+		}
+		off := 1
+		var list []ser
+		for off < len(b) {
+			if off+12 > len(b) {
+				list = append(list, ser{Err: "truncated header"})
+				break
+			}
+			tsid := binary.LittleEndian.Uint64(b[off:])
+			n := int(binary.LittleEndian.Uint32(b[off+8:]))
+			off += 12
+			if off+n > len(b) {
+				list = append(list, ser{Tsid: tsid, Err: "truncated series"})
+				break
+			}
+			s := ser{Tsid: tsid}
+			it, derr := compress.NewDecompressIterator(bytes.NewReader(b[off : off+n]))
+			if derr != nil {
+				s.Err = derr.Error()
+			} else {
+				for it.Next() {
+					t, v := it.At()
+					s.Points = append(s.Points, [2]uint64{uint64(t), math.Float64bits(v)})
+				}
+				if it.Err() != nil {
+					s.Err = it.Err().Error()
+				}
+			}
+			list = append(list, s)
+			off += n
+		}
+		out[rel] = list
+		return nil
+	})
+	return out, nil
+}
+
+func init() {
+	Register("mputl", mputLight)
+	Register("mdumpfiles", mdumpFiles)
 }
